@@ -94,16 +94,16 @@ func mulAll(x *big.Int, ys ...*big.Int) *big.Int {
 // (auxiliary level levelP, base-two decomposition b2) whose every row carries key noise of
 // sup-norm <= E, the result being read under a secret of sup-norm <= S.
 //
-//	error = ( Σ_rows digit_row * e_row ) / P  +  rounding of the division by P applied to (c0,c1)
+//		error = ( Σ_rows digit_row * e_row ) / P  +  rounding of the division by P applied to (c0,c1)
 //
-//   - each product digit*e is a negacyclic convolution of N terms: sup <= N * sup(digit) * E;
-//   - levelP > 0 (RNS decomposition in groups of α=levelP+1 primes, base two ignored by the evaluator):
-//     a digit is the residue modulo the group product G_i, reconstructed by a fast basis extension that
-//     may be off by a small multiple of G_i: sup(digit) <= (α+1)*G_i;
-//   - levelP <= 0: one row per prime q_i (sup(digit) <= q_i) or, with base two w, ceil(bits(q_i)/w) rows
-//     with digits < 2^w;
-//   - the division by P rounds each of c0, c1 with an error <= 1/2 plus <= (levelP+1) for the approximate
-//     basis extension; read under s this is <= (levelP+2) * (1 + N*S). No P: no division, no rounding.
+//	  - each product digit*e is a negacyclic convolution of N terms: sup <= N * sup(digit) * E;
+//	  - levelP > 0 (RNS decomposition in groups of α=levelP+1 primes, base two ignored by the evaluator):
+//	    a digit is the residue modulo the group product G_i, reconstructed by a fast basis extension that
+//	    may be off by a small multiple of G_i: sup(digit) <= (α+1)*G_i;
+//	  - levelP <= 0: one row per prime q_i (sup(digit) <= q_i) or, with base two w, ceil(bits(q_i)/w) rows
+//	    with digits < 2^w;
+//	  - the division by P rounds each of c0, c1 with an error <= 1/2 plus <= (levelP+1) for the approximate
+//	    basis extension; read under s this is <= (levelP+2) * (1 + N*S). No P: no division, no rounding.
 func GadgetNoiseBound(params rlwe.Parameters, lvl int, key *rlwe.GadgetCiphertext, E, S *big.Int) *big.Int {
 	levelP, b2, digits := key.LevelP(), key.BaseTwoDecomposition, key.BaseTwoDecompositionVectorSize()
 	N := bi(RingFactor(params))
@@ -193,7 +193,9 @@ func KeyRowNoise(params rlwe.Parameters, key *rlwe.GadgetCiphertext, sIn, sOut [
 func SecretInts(params rlwe.Parameters, sk *rlwe.SecretKey) []*big.Int { return rk.Secret(params, sk) }
 
 // RingMul multiplies two integer polynomials in the ring of the parameters; RingAuto applies X -> X^g.
-func RingMul(params rlwe.Parameters, a, b []*big.Int) []*big.Int { return rk.Mul(params.RingType(), a, b) }
+func RingMul(params rlwe.Parameters, a, b []*big.Int) []*big.Int {
+	return rk.Mul(params.RingType(), a, b)
+}
 func RingAuto(params rlwe.Parameters, a []*big.Int, g uint64) []*big.Int {
 	return rk.Auto(params.RingType(), a, g)
 }
